@@ -47,6 +47,9 @@ SliderMultiplier:1.4
 0,400,4,2,0,60,1,0
 
 [HitObjects]
+100,100,400,2,0,B|200:200|300,1,100
+100,100,600,2,0,L|200:100,1,100
+100,100,700,2,0,B|120:100|140:120|160:100|180:120|200:100|220:120|240:100|260:120|280:100|300:120|320:100|340:120|360:100,1,400
 200,150,800,2,0,B|250:200|x:y|300:100,1,140
 200,150,1200,2,0,B||||,1,140
 200,150,1600,2,0,|1:1|B|2:2|L|3:3,1,140
